@@ -33,7 +33,7 @@ func transferProfile(tier Tier) *explore.Profile {
 	return &explore.Profile{
 		Name:   "transfer",
 		EnvCfg: ledgerEnv(o.shards),
-		Seeds:  seedsOf("fung", "sft", "mixed", "frozen"),
+		Seeds:  seedsOf("fung", "sft", "mixed", "frozen", "refunds"),
 		Menu: func(w *world.World) []world.Action {
 			acts := transferMenu(w, o)
 			acts = append(acts, deliveries(w)...)
